@@ -19,6 +19,7 @@
 import PgProofs.Typing
 import PgProofs.TypingExtend
 import PgProofs.TypingUnion
+import PgProofs.TypingDictIdem
 namespace Pg.Typing
 
 /-- Environment of the counterexamples: classes 0 ⊃ 1, every regex matches. -/
@@ -38,6 +39,34 @@ by correspondence + oracle only. -/
 theorem C04_idem_partial (env : Env) (s : Spec) (hs : frag s = true) (p : Bool) (v v' : Val)
     (h : apply env s p v = .ok v') : apply env s p v' = .ok v' :=
   apply_idem_frag env s hs p v v' h
+
+/-- Idempotence for `Dict` specs WITH a schema: const keys, dynamic `StrKey` fields (regexes opaque),
+per-field defaults filled in for missing keys, noneable / default / frozen flags on the Dict and on
+its fields, both `allow_partial` modes.  Hypotheses: the schema's keys are distinct (what `Schema`
+enforces), the field specs belong to the fragment `frag`, the value is a Python dict (distinct keys).
+Proof: `Schema.apply` yields a dict in which every entry is a fixed point of its owning field
+(`schemaApply_conforms`, loop invariant of `applyFields`), and such a dict is a fixed point of
+`Schema.apply` (`schemaApply_fixed`). -/
+theorem C04_idem_dict (env : Env) (fields : List Field) (f : Flags) (p : Bool) (v v' : Val)
+    (hd : distinctKeys (fieldKeySpecs fields) = true) (hfr : ∀ fld ∈ fields, frag fld.value = true)
+    (hv : keysNodup v) (h : apply env (.dict (some fields) f) p v = .ok v') :
+    apply env (.dict (some fields) f) p v' = .ok v' :=
+  apply_dict_idem env fields f p v v' hd
+    (fun fld hf => C03.idem_of_frag env p fld.value (hfr fld hf))
+    (fun fld hf => missingOK_of_frag env p fld.value (hfr fld hf)) hv h
+
+/-- The same for any field specs that are themselves idempotent and `MissingOK` (so the statement
+composes with whatever else is proved idempotent, e.g. simple unions). -/
+theorem C04_idem_dict_general (env : Env) (fields : List Field) (f : Flags) (p : Bool) (v v' : Val)
+    (hd : distinctKeys (fieldKeySpecs fields) = true) (hI : ∀ fld ∈ fields, C03.Idem env p fld.value)
+    (hM : ∀ fld ∈ fields, C03.MissingOK env p fld.value) (hv : keysNodup v)
+    (h : apply env (.dict (some fields) f) p v = .ok v') :
+    apply env (.dict (some fields) f) p v' = .ok v' :=
+  apply_dict_idem env fields f p v v' hd hI hM hv h
+
+example : apply env0 (.dict (some [.mk (.const "x") (.int none none ⟨false, .int 1, false⟩),
+      .mk (.strKey none) (.float none none F0)]) F0) false (.dict [("q", .int 2)])
+    = .ok (.dict [("q", .float ⟨2, 0⟩), ("x", .int 1)]) := by rfl
 
 /-- F47 (replayed on the real code): `Union([Bool().freeze(False), Int().freeze(True)])` maps 1 to
 `True` (the Int candidate is frozen at a bool) and then rejects `True` (routed to the Bool
@@ -396,6 +425,32 @@ theorem C04_extend_counterexample_F45 : ¬ C04_extend_Full := by
   intro h
   have := (h env0 (.enum [.int 1, .int 2] ⟨false, .int 1, false⟩) (.int none none F0)
     (.enum [.int 1, .int 2] ⟨false, .int 1, false⟩) (.int 1) (by rfl)).2
+  revert this; decide
+
+/-- F42 through `extend` (replayed on the real code, signature `extend-unsound:dict-field-default-ignored`):
+`Dict([('x', Int(default=1))]).extend(Dict([('x', Int())]))` succeeds and accepts `{}` (the child's field
+default fills the key), the base rejects `{}` — field defaults are not compared by schema extension.
+Any positive extend theorem for Dict children has to exclude differing defaults of shared fields. -/
+theorem C04_extend_counterexample_dict_default : ¬ C04_extend_Full := by
+  intro h
+  have := (h env0
+    (.dict (some [.mk (.const "x") (.int none none ⟨false, .int 1, false⟩)]) ⟨false, .dict [("x", .int 1)], false⟩)
+    (.dict (some [.mk (.const "x") (.int none none F0)]) ⟨false, .dict [("x", .missing)], false⟩)
+    (.dict (some [.mk (.const "x") (.int none none ⟨false, .int 1, false⟩)]) ⟨false, .dict [("x", .int 1)], false⟩)
+    (.dict []) (by rfl)).1 (by rfl)
+  revert this; decide
+
+/-- F125 (replayed on the real code): `Union([Float(), Str()]).extend(Union([Int(min_value=4), Float(), Str()]))`
+succeeds; the extended union accepts the int 1 (converted to 1.0), the base routes 1 to its Int
+candidate and rejects it.  Any positive extend theorem for Union children has to exclude bases with a
+candidate that takes the value's Python type before the matching one (the F43 dispatch defect). -/
+theorem C04_extend_counterexample_F125 : ¬ C04_extend_Full := by
+  intro h
+  have := (h env0
+    (.union [.float none none F0, .str none F0] F0)
+    (.union [.int (some 4) none F0, .float none none F0, .str none F0] F0)
+    (.union [.float none none F0, .str none F0] F0)
+    (.int 1) (by rfl)).1 (by rfl)
   revert this; decide
 
 /-- F46: `Tuple(Int(), max_size=2).extend(Tuple(Int(), min_size=2))` has `min == max == 2` with one
